@@ -346,7 +346,8 @@ fn loop_case(q: &mut Q, h: &Handle, calls_tok: &str) {
             if after_state != before_state {
                 stat("loop_crossed_boundary_state_changed", 1);
             }
-            emit(changed || log.len() > 4, &input, &format!("{} {} ok", bits(&after_state), after_slots), Some(oracle));
+            let cons = propagate_check(q.get_manager_ref(), &after_state).map(|f| f == after_state).unwrap_or(false);
+            emit(changed || log.len() > 4, &input, &format!("{} {} ok c={}", bits(&after_state), after_slots, cons as u8), Some(oracle));
         }
     }
 }
@@ -388,7 +389,8 @@ fn free_case(q: &mut Q, h: &Handle) {
         }
     }
     stat(if nfree > 0 { "free_with_idle_vars" } else { "free_no_idle_vars" }, 1);
-    emit(nfree > 0, &format!("free {} {} {}", bits(&before_state), slots, words(&log)), &format!("{} ok", bits(&after)), Some(oracle));
+    let cons = propagate_check(q.get_manager_ref(), &after).map(|f| f == after).unwrap_or(false);
+    emit(nfree > 0, &format!("free {} {} {}", bits(&before_state), slots, words(&log)), &format!("{} ok c={}", bits(&after), cons as u8), Some(oracle));
 }
 
 fn deep_clone(q: &Q) -> (Q, Handle) {
@@ -431,7 +433,7 @@ fn pipe_case(q: &Q, beta: f64, do_loop: bool, calls_tok: &str) {
 }
 
 fn run_traj(g: &mut SplitMix64, thorough: bool) {
-    let nsys = if thorough { 480 } else { 64 };
+    let nsys = if thorough { 2400 } else { 64 };
     for s in 0..nsys {
         let fam = s % 4;
         let (nvars, calls) = gen_system(g, fam as u64);
@@ -577,7 +579,7 @@ fn gate_case(g: &mut SplitMix64, nvars: usize, calls: &[Call], do_loop: bool) {
 }
 
 fn run_gate(g: &mut SplitMix64, thorough: bool) {
-    let n = if thorough { 3000 } else { 400 };
+    let n = if thorough { 12000 } else { 400 };
     for i in 0..n {
         let fam = g.below(4);
         let (nvars, mut calls) = gen_system(g, fam);
@@ -704,7 +706,7 @@ fn flip_leg(ins: &mut Vec<bool>, outs: &mut Vec<bool>, idx: usize, k: usize) {
 }
 
 fn run_exit(g: &mut SplitMix64, thorough: bool) {
-    let nsets = if thorough { 40 } else { 8 };
+    let nsets = if thorough { 80 } else { 8 };
     for s in 0..nsets {
         let fam = [0u64, 2, 3, 1][s % 4];
         let (nvars, calls) = gen_system(g, fam);
@@ -843,7 +845,7 @@ fn run_exit(g: &mut SplitMix64, thorough: bool) {
 // ------------------------------------------------------------------------------------------
 
 fn run_start(g: &mut SplitMix64, thorough: bool) {
-    let ncfg = if thorough { 150 } else { 30 };
+    let ncfg = if thorough { 600 } else { 30 };
     for _ in 0..ncfg {
         let nvars = g.range(1, 5) as usize;
         let l = g.range(1, 12) as usize;
